@@ -11,7 +11,9 @@ def run(ctx):
                 "appended bytes, re-keyed packets (other key, other key under the right key id, other direction), a key holder declaring lengths "
                 "{-2^31, -1, -32, -33, len-33..len+33, decrypted-32, +1, +32, +33, 2^31-1} with msg_key recomputed to match whenever the slice exists, "
                 "right key id followed by 0..40 bytes, block-aligned and unaligned garbage and sealed random plaintexts under the right key id, "
-                "damaged data through the ReadMsg dispatch and DeserializeUnencrypted. Every case runs on the real code under recover(); direct oracle: "
+                "damaged data through the real transport.ReadMsg (loopback connection, harness = server) and DeserializeUnencrypted; "
+                "valid server-sealed and unencrypted messages with msg_ids over the whole int64 range ({0, 2^63, -1, 2^63-1, realistic and random upper halves, "
+                "bit 63 clear/set} x low bits 00/01/10/11) through DeserializeEncrypted, DeserializeUnencrypted and ReadMsg: a message iff the low bits are 01 or 11. Every case runs on the real code under recover(); direct oracle: "
                 "damaged => error (never a message, never a panic) - except that a bit flip may be accepted when it yields exactly the sealed message "
                 "(a flip that only garbles plaintext padding, which MTProto 1.0 does not authenticate; counted in altered_packets_accepted_with_the_sealed_message); the outcome class and, when accepted, all fields are compared with the extracted "
                 "open_client for the first ~2900 cases (thorough 40000). non-trivial = distinct packets carrying the right key id (they reach decryption, "
